@@ -148,12 +148,15 @@ def guards_on(it, row):
             v = eval3(g["cond"], row.assume)
             if v is not None and v != g["polarity"]:
                 continue  # under this corruption the guard definitely does not fire
+            if v is None and row.strict:
+                continue  # a row that fixes the corruption concretely asks for a guard that provably fires under it
         out.append(g)
     return out
 
 
 class Row:
-    def __init__(self, rid, group, run, exc, bad, mode="guard", sibling=None, fn_suffix=None, cond_pred=None, assume=None, allow_conjunction=False):
+    def __init__(self, rid, group, run, exc, bad, mode="guard", sibling=None, fn_suffix=None, cond_pred=None, assume=None, allow_conjunction=False, strict=False):
+        self.strict = strict
         self.id, self.group, self.run, self.exc, self.bad, self.mode, self.sibling = rid, group, run, exc, bad, mode, sibling
         self.fn_suffix, self.cond_pred, self.assume, self.allow_conjunction = fn_suffix, cond_pred, assume, allow_conjunction
 
@@ -529,6 +532,16 @@ def rows(S):
 
     out.append(Row("residual error estimate whose constraint shape differs from the state", "solvers", err_shape, "ValueError", ["bad_fx"]))
 
+    def counts_parts(len_term):
+        """len(tree_leaves_depth_one(X)) counts the parts of the constraint only if X still is the container of parts: a raveled array has none."""
+        x = len_term.args[0] if len_term.args else None
+        if not (isinstance(x, T.Term) and x.op == "tree.tree_leaves_depth_one" and x.args):
+            return False
+        inner = x.args[0]
+        while isinstance(inner, T.Term) and inner.op in ("np.asarray", "func.stop_gradient") and inner.args:
+            inner = inner.args[0]
+        return not (isinstance(inner, T.Term) and inner.op in ("tree.ravel", "np.reshape", "np.concatenate"))
+
     def one_output(c):
         # corruption: the constraint has ONE output while the state has d > 1 components (error.shape == (1,), reference.shape == (d,))
         if c.op == "in" and isinstance(c.args[1], (list, tuple)) and any(x == (1,) for x in c.args[1]):
@@ -548,14 +561,14 @@ def rows(S):
         if c.op == "in" and isinstance(c.args[1], (list, tuple)) and any(x == (1,) for x in c.args[1]):
             return True  # error.shape == reference.shape
         if c.op in ("ne", "eq", "gt") and len(c.args) == 2:
-            lens = [x for x in c.args if isinstance(x, T.Term) and x.op in ("len", "py.len")]
+            lens = [x for x in c.args if isinstance(x, T.Term) and x.op in ("len", "py.len") and counts_parts(x)]
             ones = [x for x in c.args if isinstance(x, int) and not isinstance(x, bool) and x == 1]
             if lens and ones:
                 return {"ne": True, "eq": False, "gt": True}[c.op]  # more than one part
         return None
 
     out.append(Row("residual error estimate of a constraint with several parts whose number equals the state dimension (isotropic: one scalar per part)", "solvers", err_shape, "ValueError", ["bad_fx"],
-                   assume=parts_equal_dimension, allow_conjunction=True))
+                   assume=parts_equal_dimension, allow_conjunction=True, strict=True))
 
     # kernels
     def revert_rank(it):
